@@ -45,6 +45,7 @@ inductive Val
 
 inductive Op
   | get | setNow (v : Int) | queue (c : Cmd) | getResult (k : Nat)
+  | getMine (j : Nat)      -- get_result of the j-th task id this thread obtained
   | pause | wait | cont
   deriving DecidableEq, Repr
 
@@ -96,6 +97,7 @@ inductive IPc
 structure IThread where
   pc : IPc
   prog : List Op
+  mine : List Nat := []     -- task ids returned to this thread by `dispatch`
 
 structure State where
   dlock : Option Tid          -- the lock of `@synchronized dispatch`
@@ -140,7 +142,7 @@ def init (progs : Tid → List Op) : State :=
     qWaiting := false, pWait := [], cLocked := [], queue := [], qdict := [],
     lockmap := [], results := [], pause := [], paused := [], nextId := 0,
     dt := 0, count := 0, spc := SPc.start,
-    th := fun t => { pc := IPc.idle, prog := progs t },
+    th := fun t => { pc := IPc.idle, prog := progs t, mine := [] },
     execLog := [], queuedLog := [], delivered := [] }
 
 /-! ### small helpers -/
@@ -273,6 +275,12 @@ def startOp (s : State) (t : Tid) (op : Op) (rest : List Op) : State × List Ev 
   | Op.getResult k =>
     if k ∈ s.lockmap then (setPc s0 t (IPc.rAcqC k), [Ev.start op])
     else (setPc s0 t IPc.idle, [Ev.start op, Ev.done Res.err])
+  | Op.getMine j =>
+    match (s.th t).mine[j]? with
+    | some k =>
+      if k ∈ s.lockmap then (setPc s0 t (IPc.rAcqC k), [Ev.start op])
+      else (setPc s0 t IPc.idle, [Ev.start op, Ev.done Res.err])
+    | none => (setPc s0 t IPc.idle, [Ev.start op, Ev.done Res.err])
   | Op.pause => (setPc s0 t IPc.pAcqP, [Ev.start op])
   | Op.wait => (setPc s0 t IPc.wAcqP, [Ev.start op])
   | Op.cont => (setPc s0 t IPc.cAcqP, [Ev.start op])
@@ -320,7 +328,11 @@ def stepIface (cfg : Cfg) (s : State) (t : Tid) : Option (State × List Ev) :=
   | IPc.qRelQ id =>
     some (setPc { s with qOwner := none } t (IPc.qRelD id), [Ev.rel LockName.q])
   | IPc.qRelD id =>
-    some (setPc { s with dlock := none } t IPc.idle, [Ev.rel LockName.d, Ev.done (Res.k id)])
+    some ({ s with dlock := none,
+                   th := fun j => if j = t then { s.th j with pc := IPc.idle,
+                                                              mine := (s.th j).mine ++ [id] }
+                                  else s.th j },
+          [Ev.rel LockName.d, Ev.done (Res.k id)])
   -- get_result
   | IPc.rAcqC k =>
     if k ∈ s.cLocked then none
